@@ -1,4 +1,5 @@
 import Knut.Proofs.InferReparse
+import Knut.Proofs.InferExample
 import Knut.Proofs.SyntaxExamples
 import Knut.Properties.C15
 /-!
@@ -141,6 +142,30 @@ example (desc : Bytes) :
     ((train tbd [exTx]).inferBooking sc desc ((train tbd [exTx]).inferBooking sc desc ⟨bank, tbd, [49], [67]⟩)).debit = food := by
   rw [C15_infer_idempotent]
   exact ex_debit_food sc desc
+
+/-- the text `2020-01-02 "m"` / `B F 1 C` / `B T 1 C` (as the formatter lays it out), with placeholder `T` -/
+def exT : Bytes := bytesOf "2020-01-02 \"m\"\nB F          1 C\nB T          1 C\n"
+/-- … and with `F` in its place -/
+def exF : Bytes := bytesOf "2020-01-02 \"m\"\nB F          1 C\nB F          1 C\n"
+
+/-- **a run that replaces a placeholder**: with `exT` as its own training file and `T` as placeholder, `knut infer`
+writes `exF` — the booking `B F 1 C` is learnable, the booking `B T 1 C` gets the only learnable account other than its
+credit account — for every score function (`Proofs/InferExample.lean`) … -/
+theorem ex_infer_trx : inferCmd sc (bytesOf "T") [("j.knut", exT)] "j.knut" exT = .written exF := by
+  have := Ex.infer_example sc
+  rw [Ex.text_T, Ex.text_F] at this
+  exact this
+
+/-- … so the theorems say: `exF` parses, is laid out as the formatter lays it out, has the gaps of `exT`, … -/
+example : ∃ f g, parseText "j.knut" exT = .ok f ∧ parseText "j.knut" exF = .ok g ∧ format exF g = some exF ∧
+    gapsOf exF 0 (g.directives.map (·.range)) = gapsOf exT 0 (f.directives.map (·.range)) := by
+  obtain ⟨_, f, g, _, _, h2, _, h4, _, _, h7, h8⟩ :=
+    C15_output_parses exactScorer (bytesOf "T") [("j.knut", exT)] "j.knut" exT exF (ex_infer_trx _)
+  exact ⟨f, g, h2, h4, h8, h7⟩
+
+/-- … and a second run (same training file) and `knut format` both leave `exF` as it is -/
+example : inferCmd sc (bytesOf "T") [("j.knut", exT)] "j.knut" exF = .written exF ∧ formatFile "j.knut" exF = .written exF :=
+  C15_idempotent_after sc (bytesOf "T") [("j.knut", exT)] "j.knut" exT exF (ex_infer_trx sc)
 
 end Examples
 
